@@ -85,3 +85,24 @@ def bit(word, i):
     if i < 0:
         return 0
     return (int.from_bytes(word, "big") >> i) & 1
+
+
+def is_digits(s):
+    """every character of s is a decimal digit (the empty string included)"""
+    return all(c in "0123456789" for c in s)
+
+
+def instantiate_post(fn, **ghost):
+    """proof hint: use the postcondition of the last contract application of `fn` at these values
+    of its ghost (universally quantified) parameters.  No run-time meaning."""
+    return True
+
+
+def assume_pre(**ghost):
+    """proof hint: use the (universally quantified) precondition of the function under proof at
+    these values of its ghost parameters.  No run-time meaning."""
+    return True
+
+
+def fromhex(s):
+    return bytes.fromhex(s)
